@@ -180,6 +180,14 @@ func buildCatalogue() {
 		err := fc.UnmarshalJSON(b)
 		return len(fc), err
 	}, "featurecollection")
+	addFree("GeoJSONFeature.MarshalJSON", func(f geom.GeoJSONFeature) ([]byte, error) { return f.MarshalJSON() }, "feat")
+	addFree("GeoJSONFeatureCollection.MarshalJSON", func(a, b geom.GeoJSONFeature) ([]byte, error) {
+		return geom.GeoJSONFeatureCollection{a, b}.MarshalJSON()
+	}, "feat", "feat")
+	addFree("GeoJSONFeature.UnmarshalJSON/into-existing", func(dst geom.GeoJSONFeature, b []byte) (geom.GeoJSONFeature, error) {
+		err := dst.UnmarshalJSON(b) // dst is a copy of a shared feature: same maps
+		return dst, err
+	}, "feat", "feature")
 	addFree("GeoJSONFeature.roundtrip", func(g geom.Geometry) (geom.Geometry, error) {
 		f := geom.GeoJSONFeature{Geometry: g, ID: 3, Properties: map[string]interface{}{"a": 1.0}}
 		b, err := f.MarshalJSON()
@@ -431,6 +439,8 @@ func drawArg(s *vs.Stream, p *pool, kind string) []int {
 		return []int{s.Intn(len(p.geoms), "a/g"), s.Intn(2*len(p.bufs)+1, "a/shared")}
 	case "feature", "featurecollection":
 		return []int{s.Intn(len(p.geoms), "a/g"), 1 + s.Intn(2*len(p.bufs), "a/shared")}
+	case "feat":
+		return []int{s.Intn(len(p.feats), "a/feat")}
 	case "twkb":
 		return []int{s.Intn(len(p.geoms), "a/g"), s.Intn(8, "a/prec"), s.Intn(8, "a/twkb"), s.Intn(2*len(p.bufs)+1, "a/shared")}
 	case "matrix", "pattern":
@@ -664,6 +674,8 @@ func (env *execEnv) mat(kind string, a []int, e *opEntry, pos int) reflect.Value
 		}
 		b, _ := p.geoms[a[0]].MarshalJSON()
 		return scr(b)
+	case "feat":
+		return reflect.ValueOf(p.feats[a[0]])
 	case "feature", "featurecollection":
 		if sh := p.sharedBuf(kind, a[1]); sh != nil {
 			return reflect.ValueOf(sh)
